@@ -72,6 +72,7 @@ macro_rules! cat_seq_q {
         $m!(t_vecdeque_u8, std::collections::VecDeque<u8>, 6, $l);
         $m!(t_arrayvec_u16, arrayvec::ArrayVec<u16, 3>, 6, $l);
         $m!(t_opt_string, Option<String>, 6, $l);
+        $m!(t_arraystring2, arrayvec::ArrayString<2>, 6, $l);
     };
 }
 #[macro_export]
@@ -91,6 +92,8 @@ macro_rules! cat_seq_t {
         $m!(t_arrayvec_usize, arrayvec::ArrayVec<usize, 3>, 6, $l);
         $m!(t_opt_vec_u16, Option<Vec<u16>>, 6, $l);
         $m!(t_tup_str_u8, (String, u8), 6, $l);
+        $m!(t_arraystring3, arrayvec::ArrayString<3>, 6, $l);
+        $m!(t_arraystring1, arrayvec::ArrayString<1>, 6, $l);
     };
 }
 /// Standard layout of the harness modules of one property:
